@@ -637,7 +637,15 @@ qb_ipcs_connection_unref(struct qb_ipcs_connection *c)
 	if (free_it) {
 		qb_list_del(&c->list);
 		if (c->service->serv_fns.connection_destroyed) {
+			/*
+			 * The callback may still use the connection (ask for
+			 * its context or statistics, try to send, take and
+			 * drop a reference): a count going from 0 to 1 and
+			 * back would destroy it a second time from inside.
+			 */
+			qb_atomic_int_inc(&c->refcount);
 			c->service->serv_fns.connection_destroyed(c);
+			(void)qb_atomic_int_dec_and_test(&c->refcount);
 		}
 		c->service->funcs.disconnect(c);
 		/* Let go of the connection's reference to the service */
